@@ -142,7 +142,7 @@ prop("C06", [
 
 prop("C14", [
     dict(engine="verus", unit="dnsser", fns=["lemma_header_roundtrip", "DNSPkt::serialise_with_size", "push_rr", "push_label", "push_str", "push_u16", "push_u32", "make_edns_opt"]),
-    dict(engine="verus", unit="dnsparse", fns=["PktParser::get_dns", "PktParser::get_domain", "PktParser::get_domain_into", "PktParser::get_rr", "PktParser::get_question"]),
+    dict(engine="verus", unit="dnsparse", fns=["PktParser::get_dns", "PktParser::get_domain", "PktParser::get_domain_into", "PktParser::get_rr", "PktParser::get_question", "lemma_pointer_budget_covers_every_name"]),
     dict(engine="kani", sets=["dns_compress"]),
 ], explanation="(a) header/flag bits: encoder contract (octets 2,3 = flag1_of/flag2_of) and decoder contract (fields = bit tests on octets 2,3) compose to the identity (lemma, all messages); "
                "(b) what the decoder accepts the encoder can encode (pkt_wf) and the encoder's counts/size contract; (c) compression pointers: BOUNDED Kani on the real push_compressed_domain/push_prefix",
